@@ -98,11 +98,63 @@ def run(fx, chk, tier):
     chk.analysed["functions_with_direct_stream_calls"] = len(direct)
     chk.floor("R1b", "io-fallible local functions", len(iof), FLOOR_IOFNS)
 
+    # closures that perform fallible I/O are accepted only where their Result provably re-enters the call-site rule:
+    #   * passed to try_for_each / try_fold: the combinator call is then itself an io-fallible call expression (R1 applies)
+    #   * passed to map(..) whose iterator is consumed by collect::<Result<..>>() (R1 applies to the collect call) or by a
+    #     `for` loop whose item is used only as the operand of `?`
+    PROPAGATING = ("try_for_each", "try_fold")
+    closure_ok = {}
+    fallible_combinators = set()      # id() of mcall nodes that stand for the closure's Result
+    for fid_, fn_ in sorted(fx.fns.items()):
+        root_ = hirq.body_root(fn_) if not fn_.get("derived") else None
+        if root_ is None:
+            continue
+        for n_, ps_ in hirq.walk(root_):
+            if n_.get("k") != "mcall":
+                continue
+            clos = [a for a in n_.get("args", []) if a.get("k") == "closure" and a.get("def") in iof]
+            if not clos:
+                continue
+            m_ = n_.get("m")
+            if m_ in PROPAGATING and is_result(n_.get("ty", "")):
+                for c_ in clos:
+                    closure_ok[c_["def"]] = "Result returned through %s" % m_
+                fallible_combinators.add(id(n_))
+            elif m_ == "map":
+                par_ = ps_[-1] if ps_ else None
+                if par_ is not None and par_.get("k") == "mcall" and par_.get("recv") is n_ and par_.get("m") == "collect" and is_result(par_.get("ty", "")):
+                    for c_ in clos:
+                        closure_ok[c_["def"]] = "items collected into a Result"
+                    fallible_combinators.add(id(par_))
+                else:
+                    # `for item in <..map(closure)> { .. item? .. }`, directly or through `let it = ..map(closure);`
+                    loop_ = None
+                    for q in reversed(ps_):
+                        if q.get("k") == "for" and any(x is n_ for x, _ in hirq.walk(q["iter"])):
+                            loop_ = q
+                            break
+                    if loop_ is None and par_ is not None and par_.get("k") == "let" and par_.get("init") is n_ and par_["pat"].get("k") == "bind":
+                        it_lid = par_["pat"].get("lid")
+                        users = [(x, pp) for x, pp in hirq.walk(root_) if x.get("k") == "path" and x.get("res") == "local" and x.get("lid") == it_lid]
+                        fors = [q for q, _ in hirq.walk(root_) if q.get("k") == "for" and any(x.get("k") == "path" and x.get("lid") == it_lid for x, _ in hirq.walk(q["iter"]))]
+                        if len(users) == 1 and len(fors) == 1:
+                            loop_ = fors[0]
+                    if loop_ is not None and loop_["pat"].get("k") == "bind":
+                        lid_ = loop_["pat"].get("lid")
+                        uses = [(x, pp) for x, pp in hirq.walk(loop_["body"]) if x.get("k") == "path" and x.get("res") == "local" and x.get("lid") == lid_]
+                        if uses and all(pp and pp[-1].get("k") == "try" for _x, pp in uses):
+                            for c_ in clos:
+                                closure_ok[c_["def"]] = "every item of the mapped iterator is the operand of ?"
     # ---- R1b
     for fid in sorted(iof):
         fn = fx.fns[fid]
         if fn["kind"] == "Closure":
-            chk.bad("R1b", fid, "closure performs fallible I/O: its Result escapes the call-site rule", site_of(fn))
+            why_ = closure_ok.get(fid)
+            out_ = fn.get("output_s") or ""
+            if why_ and (is_result(out_) or not out_):
+                chk.ok("R1b", fid, "closure: " + why_, site_of(fn))
+            else:
+                chk.bad("R1b", fid, "closure performs fallible I/O: its Result escapes the call-site rule", site_of(fn))
             continue
         out = fn.get("output_s") or ""
         chk.require(is_result(out) and ("error::Error" in out), "R1b", fid,
@@ -128,9 +180,11 @@ def run(fx, chk, tier):
             if k not in ("call", "mcall"):
                 continue
             d, r = hirq.callee_of(n)
-            isio = (n.get("trait") in IO_TRAITS) or ((r or d) in iof) or (d in iof)
+            isio = (n.get("trait") in IO_TRAITS) or ((r or d) in iof) or (d in iof) or id(n) in fallible_combinators
             ty = n.get("ty", "")
             if not isio and not (is_io_result(ty) and (r or d) not in fx.fns):
+                continue
+            if id(n) in fallible_combinators and not is_result(ty):
                 continue
             if not is_result(ty):
                 # io-fallible callee whose call has no Result value: covered by R1b on the callee
@@ -149,6 +203,14 @@ def run(fx, chk, tier):
                 continue
             if tails is None:
                 tails = tail_nodes(root)
+                # tail expressions of accepted closures (their Result re-enters the rule at the combinator)
+                ctails = set()
+                for cn, _ in hirq.walk(root):
+                    if cn.get("k") == "closure" and cn.get("def") in closure_ok:
+                        ctails |= tail_nodes(cn["body"])
+            if id(n) in ctails:
+                chk.ok("R1", key, "tail expression of a closure whose Result is propagated by its combinator", site)
+                continue
             if id(n) in tails and fn_returns_result:
                 chk.ok("R1", key, "tail expression of a Result-returning function", site)
                 continue
